@@ -34,6 +34,17 @@ T = {
  "W2_C14_rpfc_shared_buf": ("C14", "IteratorDictStringRPFC takes its decode buffer from a process-wide pool keyed by maxlength", "two live RPFC iterators of dictionaries with the same maxlength drained in staggered / different order: shared-prefix bytes come from the other iterator; one iterator alone is right"),
  "W2_C17_vbyte5": ("C17", "VByte::decode stops after sizeof(uint)=4 bytes", "values >= 2^28 (five-byte codes): top four bits dropped and byte counts disagree"),
  "W2_C19_rrr_rank": ("C19", "BitSequenceRRR::rank1 picks the sampled superblock of i+1", "BitSequenceRRR, position i with (i+1) mod (15*sample_rate) == 0 and a one in the last block of that superblock: rank1/rank0 wrong (select asserts)"),
+ "C10c_addtask_defer_lock": ("C10", "WorkerPool::add_task no longer takes shared_mutex (std::defer_lock)", "a worker that has tested its predicate but not yet blocked when the producer pushes and notifies: the wake-up is lost; visible only when the next add / the stop depends on that task finishing (protocols 1, 2); note: the repository's own tests keep a residual flake rate of about 1/1000 with it"),
+ "W3_C01_rpdac_prefix_compare": ("C01", "RPDAC locate uses the prefix comparator (query exhausted = match)", "RPDAC; a member that is a proper prefix of another member which the binary search reaches first"),
+ "W3_C03_rpfc_second_string": ("C03", "RPFC locate compares the 2nd string of a bucket without its terminator", "RPFC, bucket size >= 3; s proper prefix of t, s the 2nd string of its bucket and t later in the same bucket: locate(t) = ID of s"),
+ "W3_C05_ssa_locate_interval": ("C05", "SSA::locate stops the backward search when the interval has one entry", "FMINDEX substring search; an absent pattern of >= 2 bytes with a proper suffix that occurs exactly once: one false positive"),
+ "W3_C07_fmindex_locate_buf": ("C07", "FMINDEX locate sizes its pattern copy by maxlength instead of the query length", "FMINDEX locate with a query at least 2 bytes longer than the longest member: heap write overflow (answers unchanged)"),
+ "W3_C08_fmindex_save_mutates": ("C08", "FMINDEX save frees the separators bitmap and zeroes BWTsampling after writing", "FMINDEX built with sampling > 0; after any save, substring queries return NULL; images stay identical"),
+ "W3_C11_nearest_prime_static": ("C11", "nearest_prime caches its last answer in an unsynchronised function-local static", ">= 2 blocks built by >= 2 workers, one of them needing a hash size >= 62 (>= 50 strings in a block at overhead 25); results stay right (confirmed by us with a TSan build of the agent's demo: 0 reports unmodified, 1 with the change)"),
+ "W3_C15_fmindex_load_clamp": ("C15", "FMINDEX::load clamps maxlength with the wrong constant", "FMINDEX after save/load with exactly one string: maxLength = longest-1"),
+ "W3_C16_rpdac_accepts_hashrpdac": ("C16", "RPDAC::load accepts tag HASHRPDAC", "RPDAC's own loader given a HASHRPDAC image (or an image re-tagged 124): returns a garbage object instead of NULL"),
+ "W3_C18_statcoder_window": ("C18", "StatCoder::encodeSymbol left-aligns the codeword once in a 32-bit window", "codewords >= 26 bits (Fibonacci-like counts over >= 22 symbols) starting at a bit offset with bits+offset > 32: trailing bits written as zeros"),
+ "W3_C20_getbits": ("C20", "RePair::getBits returns bits(rules+terminals-2)", "largest identifier an exact power of two (or rules+terminals = 2)"),
 }
 for d in sorted(os.listdir(S)):
     p = os.path.join(S, d)
